@@ -22,6 +22,7 @@ import (
 	"strings"
 	"time"
 
+	"github.com/google/mtail/internal/runtime/code"
 	"github.com/google/mtail/internal/zzverif/vlib"
 )
 
@@ -41,6 +42,16 @@ type prog struct {
 	src    string
 	expect string // MustVerify MustReject Either
 	log    string // example log file, if any
+	asm    *asmProg
+}
+
+// make builds a fresh object (the object holds the metrics, i.e. the store)
+func (p prog) make() (*code.Object, string, error) {
+	if p.asm != nil {
+		n := asmName()
+		return p.asm.build(n), n, nil
+	}
+	return compile(p.src)
 }
 
 var exampleLogs = map[string]string{
@@ -160,6 +171,12 @@ func main() {
 	for i := 0; i < nGen; i++ {
 		progs = append(progs, prog{stream: "gen", name: fmt.Sprintf("gen_%d", i), src: genProgram(rng.Fork(), ""), expect: "MustVerify"})
 	}
+	// 5. hand-assembled objects: model = VM on the fault paths (no verdict, no fault oracle)
+	asms := asmPrograms()
+	for i := range asms {
+		progs = append(progs, prog{stream: "asm", name: "asm_" + asms[i].name, src: "(hand-assembled) " + asms[i].name,
+			expect: "NoVerdict", asm: &asms[i]})
+	}
 	// 4. mutated examples
 	for i := 0; i < nMut && len(exSrc) > 0; i++ {
 		e := exSrc[rng.Intn(len(exSrc))]
@@ -199,7 +216,7 @@ func main() {
 // runProgram compiles p three times (the object holds the metrics, i.e. the
 // store) and runs it; false when the compiler rejects it.
 func runProgram(out *vlib.Out, rng *vlib.Rand, p prog, nLines int) bool {
-	obj0, _, err := compile(p.src)
+	obj0, _, err := p.make()
 	if err != nil {
 		if os.Getenv("C04_DEBUG") != "" {
 			fmt.Fprintf(os.Stderr, "COMPILE-ERROR %s: %v\n", p.name, err)
@@ -216,6 +233,12 @@ func runProgram(out *vlib.Out, rng *vlib.Rand, p prog, nLines int) bool {
 		res = append(res, re.String())
 	}
 	lines := linesFor(rng.Fork(), p, res, nLines)
+	if p.asm != nil {
+		lines = nil
+		for _, l := range p.asm.lines {
+			lines = append(lines, Line{"/var/log/asm.log", l})
+		}
+	}
 	initP := projectStore(obj0)
 
 	var tb *tabs
@@ -224,8 +247,8 @@ func runProgram(out *vlib.Out, rng *vlib.Rand, p prog, nLines int) bool {
 	var t0, t1 time.Time
 	silentAt := -1
 	for try := 0; try < 5; try++ {
-		objA, nameA, errA := compile(p.src)
-		objB, nameB, errB := compile(p.src)
+		objA, nameA, errA := p.make()
+		objB, nameB, errB := p.make()
 		if errA != nil || errB != nil {
 			return false
 		}
@@ -269,7 +292,7 @@ func runProgram(out *vlib.Out, rng *vlib.Rand, p prog, nLines int) bool {
 	seen := map[string]bool{}
 	changed := false
 	for i, o := range outs {
-		if o.Kind == "fault" && !seen[o.Class] {
+		if o.Kind == "fault" && !seen[o.Class] && p.asm == nil {
 			seen[o.Class] = true
 			cls := o.Class
 			if p.expect == "MustVerify" {
